@@ -263,6 +263,8 @@ type Call struct {
 	Op    int    // index into Workload.Ops, -1 for header/close
 	Err   error
 	Panic *core.PanicError
+	// SinkLen is the number of bytes the destination had accepted when the call returned.
+	SinkLen int
 }
 
 // WriteResult is everything observed while executing a workload.
@@ -314,6 +316,7 @@ func RunWriter(w *gen.Workload, c gen.Config, sink *Sink, wo *WriteOpts) *WriteR
 		sink.CurCall = len(res.Calls)
 		call := Call{Kind: kind, Op: op}
 		call.Panic = core.Safe(func() { call.Err = f() })
+		call.SinkLen = sink.Buf.Len()
 		res.Calls = append(res.Calls, call)
 		return call.Err == nil && call.Panic == nil
 	}
